@@ -66,6 +66,7 @@ def _hist(pid, quick, thorough, text, note, ref, probes=(), max_steps=30):
         "engine": "hist", "level": "exploration", "quick_runs": quick, "thorough_runs": thorough,
         "quick_wall_cap": 600, "thorough_wall_cap": 1800,
         "run_cfg": {"max_steps": max_steps, "run_timeout": 60},
+        "thorough_cfg": {"deep": True},  # a third of the thorough runs: 5-8 metabolites / 6-12 reactions, histories of 20-60 operations
         "rule": _HIST_RULE.format(n=max_steps), "assumptions": _HIST_ASSUME, "components": _HIST_COMPONENTS,
         "probes": list(probes), "level_text": text, "design_ref": ref, "level_note": note,
         "technique": "deterministic simulation: seeded operation/fault histories vs. executable reference model",
